@@ -104,6 +104,8 @@ def selftest(rep, ws, wd):
         seen = {}
         for i in range(1, len(w)):
             o = json.loads(w[i])
+            if o["ev"] == "Tick":
+                continue
             if o["ev"] not in ("DryRun", "Est", "Asm"):
                 seen = {}
                 continue
